@@ -22,9 +22,11 @@ a bound only on paths where plan.aggregate_plan is None.
 returned None (an all-integer batch is a typed i64 column without a string view).
 (h) every event is in exactly one group: the coordinator (AggregateStreamMerger::emit_merged_groups) must not discard groups - today it drops every group with an empty key component, which is how the
 sink spells a null / missing BY value, so group counts do not add up to COUNT.
+(i) a PER bucket that starts before 1970 keeps its identity through the coordinator: the shards emit the bucket start as a signed integer; AggregateStreamMerger::parse_aggregate_row reads a negative
+Int64 / Timestamp bucket through a bit-preserving cast and does not send it through scalar_to_u64 (whose None for a negative value is the 'no bucket' key: all pre-1970 buckets would merge into null).
 """
-FLOOR = 11
-REQUIRED = ["C09.a1", "C09.a2", "C09.a3", "C09.b", "C09.c", "C09.d", "C09.e", "C09.f", "C09.g", "C09.h", "C09/C07.h"]
+FLOOR = 12
+REQUIRED = ["C09.a1", "C09.a2", "C09.a3", "C09.b", "C09.c", "C09.d", "C09.e", "C09.f", "C09.g", "C09.h", "C09.i", "C09/C07.h"]
 
 
 def run(ctx):
@@ -325,3 +327,41 @@ def run(ctx):
                 break
         return bad
     ctx.run("C09.h", "K4 EFFECT", "AggregateStreamMerger::emit_merged_groups", "no group is discarded on the way out", h_)
+
+    def i_(inst):
+        b = F.fn("AggregateStreamMerger::parse_aggregate_row")
+        s2u = b.find_calls(r"AggregateStreamMerger::scalar_to_u64$")
+        if not s2u:
+            inst.sites.append("bucket is not read through scalar_to_u64")
+            return []
+        # is there a path on which the bucket value is known negative (Lt(x, 0) true edge) and preserved by a cast instead?
+        casts = []
+        for i in sorted(b.live_blocks()):
+            for st in b.blocks[i]["s"]:
+                v = st.get("v")
+                if v and v.get("r") == "cast" and len(st.get("a", [])) == 1 and b.local_ty(st["a"][0]) == "u64":
+                    pl = v["o"].get("m") or v["o"].get("c")
+                    if pl and b.local_ty(pl[0]) == "i64":
+                        casts.append(i)
+
+        def acc(op, A, B_, truth):
+            zero = any(l[0] == "const" and re.match(r"^0_i64", str(l[1])) for l in B_)
+            return zero and ((op == "Lt" and truth) or (op == "Ge" and not truth))
+        # the cast may sit behind several `x < 0` arms (one per scalar variant): it is guarded if cutting all of them makes it unreachable
+        neg_edges = []
+        for j in sorted(b.live_blocks()):
+            if b.blocks[j]["t"]["t"] != "switch":
+                continue
+            si = b.switch_info(j)
+            d = si.get("def") if si and si["kind"] == "bool" else None
+            if d and d.get("r") == "bin":
+                for truth, tgt in ((True, si["true"]), (False, si["false"])):
+                    if tgt is not None and acc(d["op"], b.origins(d["a"]), b.origins(d["b"]), truth):
+                        neg_edges.append((j, tgt))
+        seen_wo = b.reach(0, cut_edges=neg_edges) if neg_edges else None
+        kept = [i for i in casts if seen_wo is not None and i not in seen_wo]
+        inst.sites = ["scalar_to_u64 @ %s" % sp(b, s2u[0].bb), "negative bucket kept by a cast @ %s" % [sp(b, i) for i in kept]]
+        if not kept:
+            return [("negative-bucket-becomes-null", "parse_aggregate_row reads the bucket column only through scalar_to_u64, which is None for a negative value: every PER bucket that starts before 1970 is merged into the null bucket", None)]
+        return []
+    ctx.run("C09.i", "K8 GUARD", "AggregateStreamMerger::parse_aggregate_row", "pre-1970 buckets are not merged into the null bucket", i_)
